@@ -109,7 +109,11 @@ def build_df(ds, rows, layout, rng=None):
             data[it] = [np.nan if ln[1].get(it) is None else float(ln[1][it]) for ln in lines]
         df = pd.DataFrame(data)
         idx_cols = [cols[i] for i in others]
-        unmatched = set(map(str, witems)) != set(map(str, ds[wide]["items"])) and len(witems) > 1
+        differs = set(map(str, witems)) != set(map(str, ds[wide]["items"]))
+        unmatched = differs and len(witems) > 1
+        if differs and len(witems) <= 1:
+            # a single left-over column is taken for the value column of a long table that lacks this dimension
+            omitted_multi = omitted_multi or len(ds[wide]["items"]) > 1
         pipeline = []
         for it in ds[wide]["items"]:
             for ln in lines:
@@ -118,9 +122,9 @@ def build_df(ds, rows, layout, rng=None):
                     labs[i] = ln[0][others.index(i)]
                 labs[wide] = it
                 pipeline.append([labs, ln[1].get(it)])
-    for r in pipeline:     # single-item dimensions that were left out are filled in by the pipeline
+    for r in pipeline:     # dimensions that were left out of the table are filled in by the pipeline (single item)
         for i in range(n):
-            if r[0][i] is None and i not in keep:
+            if i not in keep:
                 r[0][i] = ds[i]["items"][0]
     if layout.get("col_perm") is not None:
         c = list(df.columns)
